@@ -473,6 +473,22 @@ class BuiltinCalls:
                 inner = subst_val(inner, d[1]) if d[1] else inner
                 k = sq.length
                 I.axiom("zip(*[iter(L)] * k) yields consecutive k-chunks of L")
+                kk = k.known()
+                if I.explicit and inner.fixed is not None and kk is not None and kk >= 1:
+                    # a listed sequence and a constant chunk size: the chunks are listed (zip drops a short tail, zip_longest pads it with None)
+                    items = list(inner.fixed)
+                    chunks = []
+                    for at in range(0, len(items), kk):
+                        c = items[at:at + kk]
+                        if len(c) < kk:
+                            if not longest:
+                                break
+                            c = c + [NoneV()] * (kk - len(c))
+                        chunks.append(TupleV(tuple(c)))
+                    elem_j: Val = Bottom()
+                    for x in chunks:
+                        elem_j = join_val(elem_j, x)
+                    return Seq(Length.const(len(chunks)), elem_j if chunks else Top("empty"), "k", tuple(chunks), None, frozenset(), "iter")
                 r = self.chunk_pairs(inner, k, node, state, longest)
                 if r is not None:
                     return r
